@@ -1,5 +1,6 @@
 import RsModel.Lemmas.EqHash
 import RsModel.Lemmas.EqViews
+import RsModel.Lemmas.WarmMap
 /-!
 # C14 — equality, hashing and cloning are coherent and history-independent
 -/
@@ -62,5 +63,26 @@ theorem c14_eq_observers (f : Text → Text) (a b : Src) (h : a.eqv b = true) (h
     (na : a.NoCached) (nb : b.NoCached) (o : Opts) (σ : Store) :
     a.stream o σ = b.stream o σ ∧ a.map o σ = b.map o σ := by
   rw [c14_eq_identity f a b h ha hb na nb]; exact ⟨rfl, rfl⟩
+
+
+/-- **`a == b` with CachedSource nodes, each value on its own cold caches: equal first answers** — `a` and `b` are the same tree up to
+which caches their CachedSource nodes own; their first streams (every mode) and first `get_map` results are identical. -/
+theorem c14_eq_first_calls (f : Text → Text) (a b : Src) (h : a.eqv b = true) (ha : a.LossyFun f) (hb : b.LossyFun f)
+    (o : Opts) (σa σb : Store) (hna : a.ids.Nodup) (hnb : b.ids.Nodup) (hca : Cold σa a.ids) (hcb : Cold σb b.ids) :
+    (a.stream o σa).1 = (b.stream o σb).1 ∧ (getMap a o σa).1 = (getMap b o σb).1 := by
+  have he := Src.eqv_erase f a b h ha hb
+  have hs : a.strip = b.strip := by rw [← Src.strip_eraseIds a, ← Src.strip_eraseIds b, he]
+  exact ⟨by rw [Src.stream_strip a o σa hna hca, Src.stream_strip b o σb hnb hcb, hs],
+    by rw [getMap_strip a o σa hna hca, getMap_strip b o σb hnb hcb, hs]⟩
+
+/-- **… and equal second answers at name level**: streamed twice (columns = true), each on its own caches, `a` and `b` resolve every
+byte of the second stream to the same file name, original line, original column and name — the representation differences of
+known finding K3 (which call filled a cache) do not reach the attribution.  (No CachedSource beneath a ReplaceSource: K5.) -/
+theorem c14_eq_second_stream (f : Text → Text) (a b : Src) (h : a.eqv b = true) (ha : a.LossyFun f) (hb : b.LossyFun f)
+    (σa σb : Store) (hna : a.ids.Nodup) (hnb : b.ids.Nodup) (hca : Cold σa a.ids) (hcb : Cold σb b.ids)
+    (hka : a.CachedOK) (hkb : b.CachedOK) (hwa : a.WarmHyp) (hwb : b.WarmHyp) :
+    NA (a.stream ⟨true, false⟩ (a.stream ⟨true, false⟩ σa).2).1.evs = NA (b.stream ⟨true, false⟩ (b.stream ⟨true, false⟩ σb).2).1.evs := by
+  rw [Src.second_stream_NA a σa hna hca hka hwa, Src.second_stream_NA b σb hnb hcb hkb hwb,
+    (c14_eq_first_calls f a b h ha hb ⟨true, false⟩ σa σb hna hnb hca hcb).1]
 
 end Rs
